@@ -51,6 +51,10 @@ Definition wav_land (i : nat) : nat := (Nat.div i PKT * PKT)%nat.
 Fixpoint ticks (n : nat) : list sop :=
   match n with O => [] | S n' => STick :: ticks n' end.
 
+(** FLAC: the bytes are compared through a polynomial hash modulo 2^40 (cheaper under
+    vm_compute than FNV-1a's 64-bit multiplications) *)
+Definition fhash (bs : list Z) : Z := fold_left (fun h b => Z.land (h * 257 + b + 1) 1099511627775) bs 0.
+
 (** FLAC: building blocks of the case terms *)
 Definition FF (n : Z) (subs : list subframe) : fframe := {| f_n := n; f_subs := subs |}.
 Definition mk_defect (k dk da dc : Z) : option (nat * defect) :=
@@ -113,13 +117,13 @@ Definition run (c : case) : list Z :=
   | CFlac bits ch rate bs frames k dk da dc cut =>
       match flac_file bits ch rate bs frames k dk da dc cut with
       | None => [-1]
-      | Some file => fnv file :: enc_zload (snd (flac_ref_load_z file))
+      | Some file => fhash file :: enc_zload (snd (flac_ref_load_z file))
       end
   | CFlacStop bits ch rate bs frames k dk da dc cut =>
       match flac_file bits ch rate bs frames k dk da dc cut with
       | None => [-1]
       | Some file =>
-          fnv file :: match flac_decode file with
+          fhash file :: match flac_decode file with
                       | None => [-2]
                       | Some (FDec _ frs w) => [stop_code w; Z.of_nat (length frs)]
                       end
